@@ -6,7 +6,7 @@ Encoding shared with harness/c17_canon.go:
   thread = (b*n + i)*16 + kind  kinds 0 R (control client) 1 L (core loop) 2 P (producer / reader) 3 S (status thread)
            4 A (block assembly of block b) 5 AW (assembly worker b,i) 6 W1a 7 W1b (first-wave worker b,i, spawned
            before / after the core loop took its first request) 8 W2a 9 W2b (second wave) 10 AR (archive writer j)
-  var    = idx*16 + class        1 nfn 2 etq 3 blk 4 seg 5 arch 6 afill 7 pst 8 ptrig 9 bcon 10 trs 11 wsa 12 wsc 13 vip 14 bst 15 lastm
+  var    = idx*16 + class        1 nfn 2 etq 3 blk 4 seg 5 arch 6 afill 7 pst 8 ptrig 9 bcon 10 trs 11 wsa 12 wsc 13 vip 14 bst 15 lastm 0 rloc
   object = idx*16 + class        1 nb 2 bufc 3 qreq 4 qres 5 cm 6 cmpl 7 fl 8 wsm 9 cfg 10 wga 11 wgp 12 rund 13 abort
   token  = var*2 + share        (ptrig, bcon, wsa have two shares: a read needs one, a write both)
 -/
@@ -59,7 +59,8 @@ def spawnPayOf (p : Par) (u : Tid) : List Tok :=
       ++ (rng p.narch).map (fun j => tk 6 j 0) ++ (rng p.ntrs).map (fun m => tk 10 m 0)
       ++ (if p.merged then blockToks p 0 else []) ++ (if p.src == 2 then [nfnTok] else [])
   | 2 => -- producer: a free-running producer owns the frame counter and every block it will build
-    if p.merged then [] else nfnTok :: (rng p.nblk).flatMap (fun b => blockToks p (b + 1))
+    -- the Abaco reader loop owns its working state (variable class 0)
+    if p.merged then (if p.src == 1 then [tk 0 0 0] else []) else nfnTok :: (rng p.nblk).flatMap (fun b => blockToks p (b + 1))
   | 4 => (if p.merged then blockToks p 0 else []) ++ (if p.src == 2 then [nfnTok] else [])
   | 5 => [tk 4 i 0]
   | 6 => procToks i false
@@ -75,7 +76,7 @@ def used (p : Par) (k : Tok) : Bool :=
   let sh := k % 2
   let cls := clsOf x
   let idx := idxOf x
-  if cls == 1 || cls == 2 || cls == 5 || cls == 12 || cls == 13 || cls == 14 || cls == 15 then idx == 0 && sh == 0
+  if cls == 0 || cls == 1 || cls == 2 || cls == 5 || cls == 12 || cls == 13 || cls == 14 || cls == 15 then idx == 0 && sh == 0
   else if cls == 9 || cls == 11 then idx == 0
   else if cls == 7 then decide (idx < p.n) && sh == 0
   else if cls == 8 then decide (idx < p.n)
@@ -141,7 +142,7 @@ def pEvent : P (Tid × Ev) := do
 
 def className (cls : Nat) : String :=
   match cls with
-  | 1 => "nfn" | 2 => "etq" | 3 => "blk" | 4 => "seg" | 5 => "arch" | 6 => "afill" | 7 => "pst" | 8 => "ptrig"
+  | 0 => "rloc" | 1 => "nfn" | 2 => "etq" | 3 => "blk" | 4 => "seg" | 5 => "arch" | 6 => "afill" | 7 => "pst" | 8 => "ptrig"
   | 9 => "bcon" | 10 => "trs" | 11 => "wsa" | 12 => "wsc" | 13 => "vip" | 14 => "bst" | 15 => "lastm" | _ => "var" ++ toString cls
 
 def showEv (te : Tid × Ev) : String := s!"{te.1}:{repr te.2}"
@@ -207,6 +208,7 @@ def pLine : P Verdict := do
   P.kw "narch"; let _ ← P.nat
   P.kw "long"; let _ ← P.nat
   P.kw "quiet"; let _ ← P.nat
+  P.kw "groups"; let _ ← P.nat
   P.kw "OUT"
   match (← P.peek) with
   | some "PANIC" => return .diff "the real code panicked during the run (not a verdict on races; see the case)"
